@@ -63,10 +63,13 @@ def run(rep):
         "setter of an object that belongs to a model) is proved to keep the solver in step: from a state where the reaction's forward "
         "/ reverse variable carry id / reverse id as names, afterwards the forward variable is named by the new id, the reverse "
         "variable by the new reverse id and no other solver object is renamed (metabolite: the constraint registered under the old id "
-        "is named by the new id, nothing else); a new id that is already in use raises ValueError with NOTHING changed. Stated "
-        "preconditions: the object is listed in its model's well-formed DictList, the solver is in step at entry, and optlang accepts "
-        "the new names - optlang's name setter raises ValueError for names with white space, for a Reaction AFTER id and index were "
-        "changed (partial update, outside the contract; reproduced natively). The closure of the invariant over all public operations and histories is NOT proved: it is covered "
+        "is named by the new id, nothing else); a new id that is already in use raises ValueError with NOTHING changed; for a "
+        "reaction, a new id (or reverse id) that optlang's name setter refuses (white space) raises ValueError with NOTHING changed "
+        "either - id, list, index, the names of both variables, a forward variable already renamed carries its old name again (the "
+        "original body left id and index changed: defect found with this contract, repaired in /repo acce6db). Stated preconditions: "
+        "the object is listed in its model's well-formed DictList and the solver is in step at entry (names optlang accepted); for a "
+        "metabolite also that optlang accepts the new name (its constraint is renamed first, a refused name raises before anything "
+        "changed - not modelled as a case). The closure of the invariant over all public operations and histories is NOT proved: it is covered "
         "by the bounded driver (exhaustive/seeded histories with the GLPK problem read back through swiglpk after every step)."),
         trusted=["optlang Variable.set_bounds / model.variables lookup (assumed contracts)", "md5-based reverse_id injective",
                  "reverse_id is a function of the current id (hook in contracts/c02_rename.py); lookup of a solver variable by name "
